@@ -252,4 +252,57 @@ theorem runX_eq_run (m : Mesh) (hist : List Step) (h : ∀ o ∈ m.depot, NoInva
     rw [stepX_eq_step m s h]
     exact ih (step m s) (noInvalid_step m s h (hs s (by simp))) (fun s' hs' => hs s' (by simp [hs']))
 
+/-! ### the patch table an interrupted loop leaves behind (round 6e) -/
+
+theorem addOpX_fields (sl : List String) (l : Lists) (o : Op) :
+    (addOpX sl l o).1.verts = (addVerts sl o l.verts).1 ∧
+    ((addOpX sl l o).2 = false → (addOpX sl l o).1.patches = addItems l.patches (patchItems o (addVerts sl o l.verts).2)) := by
+  unfold addOpX
+  by_cases he : (addEdgesX l.edges o (addVerts sl o l.verts).2).2 = true
+  · simp [he]
+  · have he' : (addEdgesX l.edges o (addVerts sl o l.verts).2).2 = false := by simpa using he
+    simp only [he', Bool.false_eq_true, if_false]
+    exact ⟨rfl, fun _ => rfl⟩
+
+/-- a loop that was not interrupted has added the items of its live operations to the patch table -/
+theorem assembleLoopX_patches (sl : List String) (del : List Nat) (ops : List Op) (l P : Lists)
+    (h : assembleLoopX sl del ops l = (P, false)) :
+    P.patches = addItems l.patches (allItems sl (ops.filter (fun o => decide (o.id ∉ del))) l.verts) := by
+  induction ops generalizing l with
+  | nil =>
+    simp only [assembleLoopX] at h
+    have hl : l = P := (Prod.ext_iff.mp h).1
+    subst hl
+    simp [allItems, addItems]
+  | cons o rest ih =>
+    unfold assembleLoopX at h
+    by_cases hd : o.id ∈ del
+    · simp only [hd, if_true] at h
+      simpa [List.filter, hd] using ih l h
+    · simp only [hd, if_false] at h
+      by_cases hx : (addOpX sl l o).2 = true
+      · simp only [hx, if_true] at h
+        have := (Prod.ext_iff.mp h).2
+        simp only at this
+        rw [hx] at this
+        cases this
+      · have hx' : (addOpX sl l o).2 = false := by simpa using hx
+        simp only [hx', Bool.false_eq_true, if_false] at h
+        have h1 := ih _ h
+        obtain ⟨hv, hp⟩ := addOpX_fields sl l o
+        rw [hv, hp hx'] at h1
+        have hf : (o :: rest).filter (fun o => decide (o.id ∉ del)) = o :: rest.filter (fun o => decide (o.id ∉ del)) := by
+          simp [List.filter, hd]
+        rw [hf, h1]
+        simp only [allItems]
+        rw [addItems_append]
+
+theorem allItems_append (sl : List String) (a b : List Op) (vs : List Vtx) :
+    ∃ S, allItems sl (a ++ b) vs = allItems sl a vs ++ S := by
+  induction a generalizing vs with
+  | nil => exact ⟨allItems sl b vs, by simp [allItems]⟩
+  | cons o rest ih =>
+    obtain ⟨S, hS⟩ := ih (addVerts sl o vs).1
+    exact ⟨S, by simp only [List.cons_append, allItems, hS, List.append_assoc]⟩
+
 end CBV.C12
